@@ -433,7 +433,7 @@ def gen_newargs(rng, call_kws):
     return out
 
 
-def kernel_direct(ctx, n):
+def kernel_direct(ctx, n, exhaustive=False):
     import libcst as cst
     from codemodder.codemods.libcst_transformer import LibcstResultTransformer as L, NewArg
     rng, tags = ctx.rng, Tags()
@@ -442,6 +442,26 @@ def kernel_direct(ctx, n):
               ("f()", [("k", "1", True), ("j", "2", False)]),
               ("f(**k)", [("k", "1", True)]),
               ("requests.get('u', verify = False , timeout=3)", [("verify", "True", False)])]
+    if exhaustive:
+        import itertools
+        atoms = {"p": "x", "ka": "a=1", "kb": "b = 2", "s": "*s", "d": "**d"}
+        infos = [[]] + [[(nm, "9", ad)] for nm in "ab" for ad in (True, False)] + \
+            [[(n1, "9", a1), (n2, "'q'", a2)] for n1, n2 in (("a", "b"), ("b", "a")) for a1 in (True, False) for a2 in (True, False)]
+        for ln in range(4):
+            for shape in itertools.product(atoms, repeat=ln):
+                seen_k = seen_d = False
+                ok = len([x for x in shape if x == "ka"]) <= 1 and len([x for x in shape if x == "kb"]) <= 1
+                for x in shape:
+                    if x == "p" and (seen_k or seen_d):
+                        ok = False
+                    if x == "s" and seen_d:
+                        ok = False
+                    seen_k = seen_k or x in ("ka", "kb")
+                    seen_d = seen_d or x == "d"
+                if ok:
+                    for inf in infos:
+                        corpus.append(("f(" + ", ".join(atoms[x] for x in shape) + ")", inf))
+        ctx.count("kernel.replace_args.exhaustive_small_scope", len(corpus))
     for i in range(n + len(corpus)):
         if i < len(corpus):
             src, info = corpus[i]
@@ -902,11 +922,11 @@ def e2e_project(ctx, codemod, spec, nfiles, tag):
     return root, files, metas
 
 
-def e2e(ctx, codemods, nfiles):
+def e2e(ctx, codemods, nfiles, tag="a"):
     rows = table_rows(ctx)
     projects = []
     for cm in codemods:
-        root, files, metas = e2e_project(ctx, cm, E2E[cm], nfiles, "a")
+        root, files, metas = e2e_project(ctx, cm, E2E[cm], nfiles, tag)
         projects.append((cm, root, files, metas))
 
     walls = []
@@ -1037,12 +1057,12 @@ def run(ctx: core.Ctx):
     quick = ctx.quick()
     deep = getattr(ctx, "deep", False)
     check_tables(ctx)
-    kernel_direct(ctx, (300 if quick else 3000) * (3 if deep else 1))
+    kernel_direct(ctx, (300 if quick else 3000) * (3 if deep else 1), exhaustive=not quick)
     kernel_transformers(ctx, (25 if quick else 250) * (3 if deep else 1))
     codemods = list(E2E)
     e2e(ctx, codemods, 14 if quick else 40)
     if not quick or deep:
-        e2e(ctx, codemods, 40)
+        e2e(ctx, codemods, 40, tag="b")
 
 
 def replay(ctx, body):
